@@ -31,3 +31,66 @@ Proof. exists [92; 44]. split; [reflexivity|vm_compute; discriminate]. Qed.
 Lemma categories_refuted : exists items, line_safe (concat items) = true /\
   categories_via_line items <> map norm items.
 Proof. exists [[97; 44; 98]]. split; [reflexivity|vm_compute; discriminate]. Qed.
+
+(* ------------------------------------------------------------------ the encoded form is well escaped *)
+Require Import Proofs.ReplaceProofs.
+From Coq Require Import Lia.
+
+Lemma esc_cert_ok : check escape_char_chain esc_spec_chain [] esc_crit esc_cert = true.
+Proof. vm_compute. reflexivity. Qed.
+
+Lemma escape_char_spec s : escape_char s = seq_run percharchain (norm s).
+Proof.
+  unfold escape_char, norm. rewrite <- seq_run_app.
+  exact (bisim_sound _ _ _ _ _ esc_cert_ok s eq_refl).
+Qed.
+
+(* replacing a one-character pattern is a character map *)
+Lemma py_replace_single c rep : forall s,
+  py_replace_aux [c] rep 0 s = flat_map (fun x => if x =? c then rep else [x]) s.
+Proof.
+  induction s as [|x s IH]; [reflexivity|]. cbn [py_replace_aux flat_map is_prefix length Nat.sub].
+  rewrite andb_true_r, (N.eqb_sym c x). destruct (x =? c); rewrite IH; reflexivity.
+Qed.
+
+Lemma flat_map_compose {A B C} (f : A -> list B) (g : B -> list C) : forall s,
+  flat_map g (flat_map f s) = flat_map (fun x => flat_map g (f x)) s.
+Proof. induction s as [|x s IH]; [reflexivity|]. cbn [flat_map]. rewrite flat_map_app, IH. reflexivity. Qed.
+
+Lemma perchar_map s : seq_run percharchain s = flat_map esc_map s.
+Proof.
+  unfold percharchain, seq_run. cbn [fold_left].
+  rewrite !stage_run_py_replace by discriminate. unfold py_replace. rewrite !py_replace_single.
+  rewrite !flat_map_compose. apply flat_map_ext. intros c. unfold esc_map.
+  destruct (c =? 92) eqn:E92; [cbn [flat_map app N.eqb Pos.eqb]; reflexivity|].
+  cbn [flat_map app]. rewrite ?app_nil_r.
+  destruct (c =? 59) eqn:E59; [cbn [flat_map app N.eqb Pos.eqb]; reflexivity|].
+  cbn [flat_map app]. rewrite ?app_nil_r.
+  destruct (c =? 44) eqn:E44; [cbn [flat_map app N.eqb Pos.eqb]; reflexivity|].
+  cbn [flat_map app]. rewrite ?app_nil_r.
+  destruct (c =? 10) eqn:E10; reflexivity.
+Qed.
+
+Lemma well_escaped_map : forall s, well_escaped_from false (flat_map esc_map s) = true.
+Proof.
+  induction s as [|c s IH]; [reflexivity|]. cbn [flat_map]. unfold esc_map at 1.
+  destruct (c =? 92) eqn:E92; [cbn [app well_escaped_from N.eqb Pos.eqb]; exact IH|].
+  destruct (c =? 59) eqn:E59; [cbn [app well_escaped_from N.eqb Pos.eqb]; exact IH|].
+  destruct (c =? 44) eqn:E44; [cbn [app well_escaped_from N.eqb Pos.eqb]; exact IH|].
+  destruct (c =? 10) eqn:E10; [cbn [app well_escaped_from N.eqb Pos.eqb]; exact IH|].
+  cbn [app well_escaped_from]. rewrite E92, E10, E59, E44. cbn [orb]. exact IH.
+Qed.
+
+(* C07: for EVERY string, the encoded form has no raw line feed, and no semicolon or comma that is not escaped *)
+Theorem escape_char_well_escaped s : well_escaped (escape_char s) = true.
+Proof. unfold well_escaped. rewrite escape_char_spec, perchar_map. apply well_escaped_map. Qed.
+
+(* in particular no raw LF at all (a backslash is never followed by LF in the image of esc_map) *)
+Theorem escape_char_no_lf s : mem_chr 10 (escape_char s) = false.
+Proof.
+  rewrite escape_char_spec, perchar_map. induction (norm s) as [|c r IH]; [reflexivity|].
+  cbn [flat_map]. unfold esc_map at 1.
+  destruct (c =? 92) eqn:E92; [cbn; exact IH|]. destruct (c =? 59) eqn:E59; [cbn; exact IH|].
+  destruct (c =? 44) eqn:E44; [cbn; exact IH|]. destruct (c =? 10) eqn:E10; [cbn; exact IH|].
+  cbn [app mem_chr]. rewrite N.eqb_sym, E10. cbn [orb]. exact IH.
+Qed.
